@@ -112,6 +112,9 @@ class TapExecutor(Executor):
         return getattr(self._d, k)
 
 
+TAG_IDS = {"tap": 0, "manual": 0, "input": 0, "tap1": 1, "tap2": 2, "tap3": 3}
+
+
 def tap_cancel(fut, fid, tag, k=-1):
     """Record cancel() calls arriving at `fut` (instance-level wrapper)."""
     orig = fut.cancel
@@ -124,6 +127,8 @@ def tap_cancel(fut, fid, tag, k=-1):
         return r
 
     fut.cancel = cancel
+    if tag != "outer":
+        E.SCHED.track(fid, fut, ev="DelegateState", k=k, c=TAG_IDS.get(tag, 9))
     return fut
 
 
